@@ -1036,6 +1036,16 @@ func (vm *VirtualMachine) reloadCode(main *compiler.Code) *code {
 	delete(vm.loadedCode, main)
 	newWrappedMain := vm.loadCode(main)
 	copy(newWrappedMain.Globals, oldWrappedMain.Globals)
+	// Functions loaded during earlier runs share the root's globals array.
+	// Point them at the new array, otherwise they keep reading (and writing)
+	// the values the globals had when they were first loaded.
+	vm.cloneMutex.Lock()
+	for cc, loaded := range vm.loadedCode {
+		if cc != main && cc.Root() == main {
+			loaded.Globals = newWrappedMain.Globals
+		}
+	}
+	vm.cloneMutex.Unlock()
 	return newWrappedMain
 }
 
